@@ -319,7 +319,9 @@ func (t *Table) fromFloat(f float64) Node {
 	}
 	g := f * 8
 	if g == math.Trunc(g) && math.Abs(g) < 1e12 {
-		return Node{"n", int(g)}
+		if _, remapped := t.Numbers[strconv.Itoa(int(g))]; !remapped { // keep the table injective: that code means another float here
+			return Node{"n", int(g)}
+		}
 	}
 	return Node{"x", strconv.FormatFloat(f, 'g', -1, 64)}
 }
